@@ -103,9 +103,56 @@ def exc_is_subclass(name: str, parent: str) -> bool:
     return False
 
 
+class Locals(dict):
+    """Local variables of a frame. Contracts name locals as they were called when the contract was written; when a
+    local has been RENAMED since (alias map computed from the binding signatures, front.align_locals), a lookup of the
+    old name that finds nothing is redirected to the new name. Lookups of existing names are never redirected."""
+    alias: dict = {}
+
+    def _k(self, k):
+        return self.alias[k] if (not dict.__contains__(self, k) and k in self.alias) else k
+
+    def __getitem__(self, k):
+        return dict.__getitem__(self, self._k(k))
+
+    def get(self, k, d=None):
+        return dict.get(self, self._k(k), d)
+
+    def __contains__(self, k):
+        return dict.__contains__(self, self._k(k))
+
+    def __setitem__(self, k, v):
+        dict.__setitem__(self, self._k(k), v)
+
+
+_LOCALS_REF = None
+
+
+def locals_alias(fi):
+    global _LOCALS_REF
+    if _LOCALS_REF is None:
+        import json, os, pathlib
+        p = pathlib.Path(os.environ.get("PYVC_LOCALS_REF", pathlib.Path(__file__).resolve().parent.parent / "contracts" / "locals_ref.json"))
+        _LOCALS_REF = json.loads(p.read_text()) if p.exists() else {}
+    ref = _LOCALS_REF.get(fi.qualname)
+    if not ref:
+        return {}
+    cache = getattr(fi, "_alias", None)
+    if cache is None:
+        from .front import align_locals
+        cur = fi.local_bindings()
+        cache = fi._alias = {} if [list(x) for x in cur] == [list(x) for x in ref] else align_locals([tuple(x) for x in ref], cur)
+    return cache
+
+
 class Frame:
     def __init__(self, fi: FunctionInfo | None, module: ModuleInfo | None, locals_=None, parent=None, cls=None):
-        self.fi, self.module, self.locals, self.parent, self.cls = fi, module, dict(locals_ or {}), parent, cls
+        self.fi, self.module, self.parent, self.cls = fi, module, parent, cls
+        self.locals = Locals(locals_ or {})
+        if fi is not None:
+            al = locals_alias(fi)
+            if al:
+                self.locals.alias = al
         self.loop_ordinal = 0
         self.self_val = None
 
@@ -1703,6 +1750,14 @@ class Ex:
         raise Unsupported(f"cannot havoc loop-modified local {base} of kind {type(v).__name__}; give it in the loop spec")
 
     def loop_with_invariant(self, s, fr, spec: LoopSpec, it, ordinal):
+        try:
+            return self._loop_with_invariant(s, fr, spec, it, ordinal)
+        except KeyError as e:
+            # the contract names a local that this version of the function does not have (and no renamed counterpart
+            # was found): the contract is not applicable -> undecided, never a violation
+            raise Unsupported(f"loop contract refers to a local variable that does not exist here: {e}")
+
+    def _loop_with_invariant(self, s, fr, spec: LoopSpec, it, ordinal):
         header = (ast.unparse(s.target) + " in " + ast.unparse(s.iter)) if isinstance(s, ast.For) else ast.unparse(s.test)
         if spec.header is not None and spec.header != header and not same_header_modulo_targets(spec.header, s):
             raise Unsupported(f"loop header changed: expected {spec.header!r}, found {header!r} (invariant not applicable)")
